@@ -100,6 +100,32 @@ def mutants_for(src_text, line0, line1, name):
         elif t.kind == "ident" and t.text in ("predicate", "object") and toks[q - 1].text == "." and q + 2 < bc and toks[q + 1].text == "(" and toks[q + 2].text == ")":
             o2 = "object" if t.text == "predicate" else "predicate"
             yield (start + t.start, start + t.end, o2, "`.%s()` -> `.%s()`" % (t.text, o2))
+        elif t.kind == "ident" and t.text == "Some" and q + 1 < bc and toks[q + 1].text == "(" and toks[q - 1].text in ("=", "(", ",", "{", "=>", "return", ";") :
+            c2 = match_close(toks, q + 1)
+            yield (start + t.start, start + toks[c2].end, "None", "`Some(..)` -> `None`")
+        elif t.kind == "punct" and t.text in ("+", "-") and text[t.start - 1:t.start] == " " and text[t.end:t.end + 1] == " ":
+            o2 = "-" if t.text == "+" else "+"
+            yield (start + t.start, start + t.end, o2, "`%s` -> `%s`" % (t.text, o2))
+        elif t.kind == "punct" and t.text == "(" and toks[q - 1].kind == "ident" and toks[q - 1].text not in ("if", "while", "match", "for", "fn", "Some", "Ok", "Err"):
+            # swap the two arguments of a two-argument call (type errors end as `undecided: does not compile`)
+            c2 = match_close(toks, q)
+            commas = []
+            z = q + 1
+            while z < c2:
+                if toks[z].kind == "punct" and toks[z].text in ("(", "[", "{"):
+                    z = match_close(toks, z) + 1
+                    continue
+                if toks[z].text == "|":          # closure argument: skip the whole call
+                    commas = None
+                    break
+                if toks[z].text == ",":
+                    commas.append(z)
+                z += 1
+            if commas is not None and len(commas) == 1 and commas[0] + 1 < c2:
+                a1 = text[toks[q + 1].start:toks[commas[0] - 1].end]
+                a2 = text[toks[commas[0] + 1].start:toks[c2 - 1].end]
+                if a1.strip() != a2.strip():
+                    yield (start + toks[q + 1].start, start + toks[c2 - 1].end, a2 + ", " + a1, "arguments of `%s(..)` swapped" % toks[q - 1].text)
         elif t.kind == "num" and re.fullmatch(r"\d+", t.text or "") and int(t.text) < 100:
             yield (start + t.start, start + t.end, str(int(t.text) + 1), "`%s` -> `%d`" % (t.text, int(t.text) + 1))
 
